@@ -40,17 +40,18 @@ def step' (line : String) : String :=
   | ["W", chunks] => encChars (utf8.decodeWhole ((splitNE chunks ",").map decChunk).flatten)
   | [flags, outc, errc, ins, sched] =>
     match flags.splitOn "," with
-    | [hi, ht, w, p, eo, tty, ho, sf, rs] =>
+    | [hi, ht, w, p, eo, tty, ho, sf, rs, hdo, hde] =>
       let e : Bool := effEcho (if eo == "1" then some true else if eo == "2" then some false else none) (b p) (b tty)
       let s0 := S.init (b hi) (b ht) (b w) (b p) e ((splitNE outc ",").map decChunk) ((splitNE errc ",").map decChunk)
                   ((splitNE ins ",").map parseIn) (b ho) (b sf) (rs.toNat?.getD 1000)
+      let s0 : S := { s0 with hideOut := b hdo, hideErr := b hde }
       let s := run s0 ((splitNE sched ",").filterMap parseEv)
       let alive := (if s.outPc = .read then "out," else "") ++ (if !s.pty && s.errPc = .read then "err," else "")
                    ++ (if s.hasStdin && s.inPc ≠ .done then "stdin," else "")
       "|".intercalate [(if s.mainPc = .done then showOutcome s.outcome else "pending"), hex s.capOut.flatten, hex s.capErr.flatten,
         textOf s.capOut s.outPc, textOf s.capErr s.errPc, hex s.childBytes, toString s.closeCount,
         toString s.kills, toString s.killsAfterReturn, hex s.echoed.flatten,
-        (if s.mainPc = .done then "done" else "notdone"), alive]
+        (if s.mainPc = .done then "done" else "notdone"), alive, textOf s.mirOut s.outPc, textOf s.mirErr s.errPc]
     | _ => "bad-flags"
   | _ => "bad-op"
 
